@@ -25,6 +25,12 @@ class Wrap(Contract):
                 for carrier in ('objint', 'f64', 'i64'):
                     for shape in ((), (2,)):
                         yield dict(signed=signed, n_word=n, carrier=carrier, shape=list(shape))
+            # 2-d arrays in C and in Fortran memory order (transposed inputs): positions must be preserved
+            for n in (3, 64, 70):
+                for carrier in (('objint', 'i64') if n >= 64 else ('i64', 'f64')):
+                    for fo in (False, True):
+                        yield dict(signed=signed, n_word=n, carrier=carrier, shape=[2, 2], forder=fo)
+                    yield dict(signed=signed, n_word=n, carrier=carrier, shape=[2, 3], forder=True)
 
     def inputs(self, cfg, D):
         n = nelem(cfg['shape'])
@@ -39,6 +45,8 @@ class Wrap(Contract):
     def run(self, cfg, P, inp):
         dt = {'objint': object, 'i64': 'int64', 'f64': 'float64'}[cfg['carrier']]
         x = P.arr(inp['x'], dtype=dt, shape=tuple(cfg['shape']))
+        if cfg.get('forder'):
+            x = f_ordered(x)
         r = P.utils.wrap(x, cfg['signed'], cfg['n_word'])
         return {'r': r, 'dtype_is_object': r.dtype == object}
 
